@@ -18,6 +18,11 @@ var confSeq uint64
 
 // SignerViaConfig writes conf as the signer section of a configuration file under dir and builds the signer from it.
 func SignerViaConfig(dir string, conf crypki.SignerConfig) (*crypki.Signer, error) {
+	return SignerViaConfigExtra(dir, conf, nil)
+}
+
+// SignerViaConfigExtra: the same, with further keys in the signer section (keys this version of the code may not know).
+func SignerViaConfigExtra(dir string, conf crypki.SignerConfig, extra map[string]interface{}) (*crypki.Signer, error) {
 	m := map[string]interface{}{
 		"tls_client_key_file":  conf.TLSClientKeyFile,
 		"tls_client_cert_file": conf.TLSClientCertFile,
@@ -26,6 +31,9 @@ func SignerViaConfig(dir string, conf crypki.SignerConfig) (*crypki.Signer, erro
 		"crypki_port":          conf.CrypkiPort,
 		"retries":              conf.Retries,
 		"per_try_timeout":      conf.PerTryTimeout.String(),
+	}
+	for k, v := range extra {
+		m[k] = v
 	}
 	doc := map[string]interface{}{"signer": m, "request_timeout": 60, "handlers": map[string]interface{}{}}
 	b, err := json.MarshalIndent(doc, "", " ")
